@@ -50,22 +50,20 @@ def now_ticks():
     return asyncio.get_running_loop().time() * TICKS_PER_SEC
 
 
-async def sleep_until_tick(t, half=True):
-    """Arrivals happen half a tick after the nominal tick, deadlines on ticks: no
-    exact tie with the request deadline can occur, and `arrival tick < deadline tick`
-    (the stub's rule) is exactly `arrival instant < deadline instant`."""
+async def sleep_until(ticks_float):
     loop = asyncio.get_running_loop()
-    target = (t + (0.5 if half else 0.25)) / TICKS_PER_SEC
-    d = target - loop.time()
+    d = ticks_float / TICKS_PER_SEC - loop.time()
     if d > 0:
         await anyio.sleep(d)
 
 
-async def feeder(send_stream, script, resolve):
-    """script: list of (absolute tick, item or callable)."""
-    for t, item in script:
-        await sleep_until_tick(t)
-        await send_stream.send(resolve(item))
+async def sleep_until_arrival(tick, pos):
+    """the i-th scripted message arrives (i+1)/8 tick after its nominal tick (env.fine_arrival)"""
+    await sleep_until(tick + (pos + 1) / 8)
+
+
+async def sleep_until_cancel(tick):
+    await sleep_until(tick + 1 / 16)
 
 
 class RealWire:
